@@ -677,6 +677,22 @@ class Evaluator:
                 if len(args) == 1 and isinstance(args[0], tuple):
                     args = list(args[0])
             return self.apply(f, args, {})
+        if k == "matchv":
+            # Cells.match: the entries whose key agrees with the arguments where it is not None are probed from the
+            # most to the least specific one; the first value that is not None is the answer
+            import itertools
+            f = self.ev(e[1], ctx, env)
+            args = [self.ev(a, ctx, env) for a in e[2]]
+            n = len(args)
+            for ml in range(n, -1, -1):
+                for idxs in itertools.combinations(range(n), ml):
+                    masked = [None] * n
+                    for i in idxs:
+                        masked[i] = args[i]
+                    v = self.apply(f, masked, {})
+                    if v is not None:
+                        return v
+            return None         # (no entry matches: the pair that match() returns then has the value None)
         if k == "kwcall":
             f = self.ev(e[1], ctx, env)
             kw = {n: self.ev(a, ctx, env) for n, a in e[2]}
